@@ -202,6 +202,9 @@ def run(model: Model, rep: Report) -> None:
     r9.check(wq is None and not any(isinstance(n, (ast.If, ast.Return)) for n in walk_no_nested(dq.node)), site(dq), dq.qualname, "do_q: self.gstack.append(self.get_current_state()), unconditionally", why="a path through do_q does not push: the matching Q then restores an outer level's line width, dash, colours and CTM")
     sQ = "".join(unparse(dQ.node).split())
     r9.check("ifself.gstack:self.set_current_state(self.gstack.pop())" in sQ and len([n for n in walk_no_nested(dQ.node) if isinstance(n, ast.If)]) == 1, site(dQ), dQ.qualname, "do_Q: pops and restores iff the stack is non-empty", why="changed")
+    from .c13 import lenient_accessors_rule
+
+    lenient_accessors_rule(model, rep, "C16-R10")
     from .interp import optional_number_truth_rule
 
     optional_number_truth_rule(model, rep, "C16-R7", [f for q, f in sorted(model.funcs.items()) if q.startswith("pdfminer.pdfinterp.PDFPageInterpreter.do_")], 8)
